@@ -235,7 +235,7 @@ with p_list (n : nat) (l : lev) (ts : list token) {struct n} : option (list gpr 
       end
   end.
 
-Definition parse_fuel (ts : list token) : nat := (10 * length ts + 10)%nat.
+Definition parse_fuel (ts : list token) : nat := (20 * length ts + 20)%nat.
 
 (* ast.parse(..., "eval"): the whole input must be one expression *)
 Definition parse (ts : list token) : option gpr :=
